@@ -24,7 +24,7 @@ DocOf(kids) ==
   IN Build(1, <<0>>, <<"E">>, <<"a">>, 0)
 Docs == {DocOf(ks) : ks \in UNION {[1..n -> Kid] : n \in 1..MaxKids}}
 
-Path(t2) == [steps |-> <<[axis |-> "child", test |-> "*"], [axis |-> "child", test |-> t2]>>, pk |-> "none", pn |-> "", pv |-> ""]
+Path(t2) == [steps |-> <<[axis |-> "child", test |-> "*"], [axis |-> "child", test |-> t2]>>, pk |-> "none", pn |-> "", pv |-> "", pre |-> ""]
 Paths == {Path("b"), Path("*")}
 
 V(kind, xp) == [kind |-> kind, xp |-> xp, ty |-> "none", notrim |-> FALSE, keep |-> FALSE, lit |-> ""]
